@@ -342,7 +342,7 @@ def subtrees_for_shrinking(t):
 
 class Style:
     FEATURES = ("prime", "arrow", "implicit_ret", "loop_do", "parens", "comments", "blank", "indent", "tabs",
-                "crlf", "brk")
+                "crlf", "brk", "cont")
 
     def __init__(self, seed=None, **on):
         self.r = random.Random(seed)
@@ -424,10 +424,10 @@ def _rx(e, st, pos):
         return "%s %s %s" % (ls, op, rs)
     if k == "call":
         _, f, args = e
-        if pos == "tail" and st.want("prime"):
+        if pos == "tail" and (st.want("prime") or (st.on["cont"] and len(args) >= 2)):
             if not args:
                 return f + "'"
-            return f + "' " + ", ".join(rx(a, st, "full") for a in args)
+            return f + "' " + _prime_args(st, [rx(a, st, "full") for a in args])
         if args and pos in ("tail", "full") and st.want("arrow"):
             first = rx(args[0], st, "operand")
             if not _atomlike(args[0]) and not _wrapped(first):
@@ -442,7 +442,7 @@ def _rx(e, st, pos):
             return "(" + items[0] + ",)"
         return _brk(st, items, "(", ")")
     if k == "index":
-        return "%s[%d]" % (e[1], e[2])
+        return e[1] + _brk(st, [str(e[2])], "[", "]")
     if k == "field":
         return "%s.%s" % (e[1], e[2])
     if k == "blobnew":
@@ -450,6 +450,46 @@ def _rx(e, st, pos):
     if k == "ifx":
         return "if %s do %s else %s end" % (rx(e[1], st, "full"), rx(e[2], st, "full"), rx(e[3], st, "full"))
     raise ValueError(k)
+
+
+def rty(ty, st):
+    """render a type: a string, ("tuple", [types]), ("list", type) or ("user", Name, [types])"""
+    if isinstance(ty, str):
+        return ty
+    if ty[0] == "tuple":
+        items = [rty(x, st) for x in ty[1]]
+        if len(items) == 1:
+            return "(" + items[0] + ",)"
+        return _brk(st, items, "(", ")")
+    if ty[0] == "list":
+        return _brk(st, [rty(ty[1], st)], "[", "]")
+    if ty[0] == "user":
+        return ty[1] + (_brk(st, [rty(x, st) for x in ty[2]], "(", ")") if ty[2] else "")
+    raise ValueError(ty)
+
+
+def _gap(st):
+    """what may stand between the continuation lines of an unbracketed prime call"""
+    out = "\n"
+    for _ in range(st.r.randint(0, 2)):
+        out += st.r.choice(["", "   ", "    // continuation", "// c"]) + "\n"
+    return out + " " * st.r.randint(1, 8)
+
+
+def _prime_args(st, items):
+    """a, b, c -- possibly continued over lines, with the comma before or after the break"""
+    out = items[0]
+    for it in items[1:]:
+        if st.want("cont"):
+            if st.r.random() < 0.5:
+                out += _gap(st) + ", " + it          # break, blank/comment lines, then the comma
+            elif st.r.random() < 0.5:
+                out += "," + _gap(st) + it           # comma, then break and blank/comment lines
+            else:
+                out += _gap(st) + "," + _gap(st) + it
+        else:
+            out += ", " + it
+    return out
 
 
 def _wrapped(s):
@@ -502,7 +542,7 @@ def render_stmt(s, st, out, depth, is_fn_tail=False):
         if ty is None:
             out.line(depth, "%s %s %s" % (x, ":=" if mutable else "::", rx(e, st)))
         else:
-            out.line(depth, "%s: %s %s %s" % (x, ty, "=" if mutable else ":", rx(e, st)))
+            out.line(depth, "%s: %s %s %s" % (x, rty(ty, st), "=" if mutable else ":", rx(e, st)))
     elif k == "assign":
         out.line(depth, "%s %s %s" % (s[1], s[2], rx(s[3], st)))
     elif k == "expr":
@@ -560,6 +600,16 @@ def render_program(prog, st=None):
             out.line(0, "end")
         elif d[0] == "const":
             out.line(0, "%s :: %s" % (d[1], rx(d[2], st)))
+        elif d[0] == "enum":
+            vs = _brk(st, ["*" + v for v in d[2]], "(", ")") if d[2] else ""
+            lines = ["%s :: enum%s" % (d[1], vs)]
+            for vn, payload in d[3]:
+                lines.append("    " + vn + ((" " + rty(("tuple", payload), st)) if payload else ""))
+            lines.append("end")
+            out.line(0, "\n".join(lines))
+        elif d[0] == "gblob":
+            vs = _brk(st, ["*" + v for v in d[2]], "(", ")")
+            out.line(0, "%s :: blob%s { %s }" % (d[1], vs, ", ".join("%s: %s" % (f, rty(ty, st)) for f, ty in d[3])))
         elif d[0] == "blob":
             fields = ["%s: %s" % (f, t) for f, t in d[2]]
             if st.on["brk"]:
@@ -668,11 +718,13 @@ def gen_body(r, env, fns, blobs, n, depth, in_loop, names):
             body.append(("if", [(gen_bool(r, env, fns, 1), [("continue",) if r.random() < 0.5 else ("break",)])], None))
         elif x < 0.87:
             v = names()
-            body.append(("def", v, ("tuple", [gen_int(r, env, fns, 1), gen_int(r, env, fns, 1)]), True, None))
+            body.append(("def", v, ("tuple", [gen_int(r, env, fns, 1), gen_int(r, env, fns, 1)]), True,
+                         r.choice([None, ("tuple", ["int", "int"])])))
             env.tuples.append(v)
         elif x < 0.9:
             v = names()
-            body.append(("def", v, ("list", [gen_int(r, env, fns, 1) for _ in range(r.randint(0, 3))]), True, None))
+            body.append(("def", v, ("list", [gen_int(r, env, fns, 1) for _ in range(r.randint(0, 3))]), True,
+                         r.choice([None, ("list", "int")])))
             env.lists.append(v)
         elif x < 0.94 and blobs:
             bname, fields = r.choice(blobs)
@@ -702,6 +754,11 @@ def gen_program(r, size=4):
         prog.append(("blob", "P", [(f, "int") for f in fields]))
         blobs.append(("P", fields))
     fns = []
+    if r.random() < 0.4:
+        prog.append(("enum", "E", r.choice([[], ["T"]]),
+                     [("A", ["int", "int"]), ("B", []), ("C", [("list", "int"), ("tuple", ["int", "int"])])]))
+    if r.random() < 0.3:
+        prog.append(("gblob", "Q", ["T", "U"], [("v", "*T"), ("w", ("tuple", ["*U", "int"]))]))
     if r.random() < 0.5:
         prog.append(("const", "k0", ("int", r.randint(1, 9))))
     for i in range(r.randint(1, size)):
@@ -720,7 +777,7 @@ def gen_program(r, size=4):
 
 
 STYLE_FEATURES = ["prime", "arrow", "implicit_ret", "loop_do", "parens", "comments", "blank", "indent", "tabs", "crlf",
-                  "brk"]
+                  "brk", "cont"]
 
 
 def surface_variants(prog, seed, n_mixed=2):
